@@ -11,7 +11,7 @@ vars == <<cfg, phase>>
 Emit == "EMIT" \in DOMAIN IOEnv /\ IOEnv.EMIT = "1"
 
 Fld(n, a, t, d) == [name |-> n, alias |-> a, t |-> t, def |-> d, flat |-> FALSE]
-Prm(n, t, d)    == [name |-> n, t |-> t, def |-> d]
+Prm(n, t, d)    == [name |-> n, t |-> t, def |-> d, eh |-> "unset", pos |-> "first"]
 E == TEnum("Color")
 
 M0 == [enums |-> [Color |-> {"RED", "GREEN"}],
@@ -34,6 +34,8 @@ M0 == [enums |-> [Color |-> {"RED", "GREEN"}],
   Bot    |-> [kind |-> "object", bases |-> <<"Named">>, resolvers |-> <<>>, fields |-> <<Fld("model", "", TStr, DfVal(DStr("m")))>>],
   Mid    |-> [kind |-> "hidden", bases |-> <<"Named">>, resolvers |-> <<>>, fields |-> <<Fld("level", "", TInt, DfVal(DInt(1)))>>],
   Deep   |-> [kind |-> "object", bases |-> <<"Mid">>, resolvers |-> <<>>, fields |-> <<Fld("depth", "", TInt, DfVal(DInt(2)))>>],
+  \* a Python subclass of an object type that the schema does not know
+  SubLeaf |-> [kind |-> "hidden", bases |-> <<"Leaf">>, resolvers |-> <<>>, fields |-> <<Fld("extra", "", TInt, DfVal(DInt(1)))>>],
   Child  |-> [kind |-> "object", bases |-> <<>>, resolvers |-> <<>>, fields |-> <<Fld("c", "", TInt, Req)>>],
   Part   |-> [kind |-> "object", bases |-> <<>>, resolvers |-> <<>>,
               fields |-> <<Fld("part_n", "", TInt, Req), Fld("child", "", TObj("Child"), Req)>>],
@@ -47,6 +49,8 @@ M0 == [enums |-> [Color |-> {"RED", "GREEN"}],
 \* ---- values
 LeafV(n, s, c) == VInst("Leaf", << <<"n", DInt(n)>>, <<"opt_s", s>>, <<"col", VEnum("Color", c)>>, <<"sc", DInt(3)>>,
                                    <<"tags", VList(<<DStr("t")>>)>>, <<"lit", DStr("y")>> >>)
+SubLeafV == VInst("SubLeaf", << <<"n", DInt(6)>>, <<"opt_s", DStr("q")>>, <<"col", VEnum("Color", "GREEN")>>, <<"sc", DInt(3)>>,
+                                 <<"tags", VList(<<>>)>>, <<"lit", DStr("x")>>, <<"extra", DInt(9)>> >>)
 UserV == VInst("User", << <<"id", DStr("1")>>, <<"name", DStr("bob")>>, <<"age", DInt(3)>>, <<"u", VUndef>> >>)
 UserV2 == VInst("User", << <<"id", DStr("3")>>, <<"name", DStr("eve")>>, <<"age", DInt(4)>>, <<"u", DInt(5)>> >>)
 BotV  == VInst("Bot",  << <<"id", DStr("2")>>, <<"name", DStr("bot")>>, <<"model", DStr("m")>> >>)
@@ -58,9 +62,9 @@ HolderV(who, named, maybe) ==
 
 Roots ==
   { [t |-> TObj("Holder"), vs |-> {HolderV(UserV, BotV, DNull), HolderV(BotV, DeepV, LeafV(9, DNull, "RED")), HolderV(UserV2, UserV, DNull)}],
-    [t |-> TObj("Leaf"), vs |-> {LeafV(1, DNull, "RED"), LeafV(2, DStr("s"), "GREEN")}],
-    [t |-> TList(TObj("Leaf")), vs |-> {VList(<<>>), VList(<<LeafV(1, DNull, "RED"), LeafV(2, DStr("s"), "GREEN")>>)}],
-    [t |-> TOpt(TObj("Leaf")), vs |-> {DNull, LeafV(1, DNull, "RED")}],
+    [t |-> TObj("Leaf"), vs |-> {LeafV(1, DNull, "RED"), LeafV(2, DStr("s"), "GREEN"), SubLeafV}],
+    [t |-> TList(TObj("Leaf")), vs |-> {VList(<<>>), VList(<<LeafV(1, DNull, "RED"), SubLeafV, LeafV(2, DStr("s"), "GREEN")>>)}],
+    [t |-> TOpt(TObj("Leaf")), vs |-> {DNull, LeafV(1, DNull, "RED"), SubLeafV}],
     [t |-> TObj("Named"), vs |-> {UserV, BotV, DeepV}],
     [t |-> TObj("Node"), vs |-> {UserV, DeepV}],
     [t |-> TList(TObj("Node")), vs |-> {VList(<<UserV, BotV, DeepV>>)}],
@@ -105,7 +109,14 @@ Params ==
   { [p |-> Prm("arg_one", TOpt(TObj("LeafIn")), DfNull), ds |-> {DObj(<< <<"n", DInt(1)>> >>)}] } \cup
   { [p |-> Prm("arg_one", TObj("EnumIn"), Req), ds |-> {DObj(<<>>), DObj(<< <<"col", EName("RED")>> >>)}] }
 
-Cfgs == {[kind |-> "root", root |-> r] : r \in Roots} \cup {[kind |-> "param", prm |-> p] : p \in Params}
+\* the parameters whose data can pass GraphQL's own coercion and still be rejected by apischema, under an error_handler
+EhParams == {[q EXCEPT !.p = [q.p EXCEPT !.eh = h]] : q \in {x \in Params : x.p.t \in {TCInt, TOpt(TCInt), TList(TCInt), TObj("LeafIn")}},
+                                                       h \in {"none", "custom"}}
+InfoParams == {[q EXCEPT !.p = [q.p EXCEPT !.pos = "afterinfo"]] : q \in {x \in Params : x.p.t \in {TInt, TOpt(TInt)}}}
+LeafInV == VInst("LeafIn", << <<"n", DInt(2)>>, <<"opt_s", DStr("dflt")>>, <<"tags", VList(<<>>)>>, <<"u", VUndef>>, <<"k", DInt(7)>> >>)
+ObjDefaultParams == {[p |-> Prm("arg_one", TObj("LeafIn"), DfVal(LeafInV)), ds |-> {DObj(<< <<"n", DInt(1)>> >>)}]}
+Cfgs == {[kind |-> "root", root |-> r] : r \in Roots}
+        \cup {[kind |-> "param", prm |-> p] : p \in Params \cup EhParams \cup InfoParams \cup ObjDefaultParams}
         \cup {[kind |-> "types"]}
 
 Classes == DOMAIN M0.ct
